@@ -142,6 +142,7 @@ impl Isolated {
         let line = match payload {
             Payload::Tape(t) => format!("T {} {}\n", rec.frozen as u8, hex(t)),
             Payload::Item(i) => format!("I {} {}\n", rec.frozen as u8, i),
+            Payload::Bytes(b) => format!("B {} {}\n", rec.frozen as u8, hex(b)),
         };
         {
             let (_, stdin, _) = self.child.as_mut().unwrap();
@@ -206,6 +207,7 @@ pub fn worker_main(prop: &dyn Prop, tier: Tier) -> i32 {
         let payload = match kind {
             "T" => Payload::Tape(unhex(arg)),
             "I" => Payload::Item(arg.parse().unwrap_or(0)),
+            "B" => Payload::Bytes(unhex(arg)),
             _ => continue,
         };
         let mut rec = Recorder::new();
